@@ -1,9 +1,12 @@
 package core
 
 import (
+	"encoding/json"
+
 	"github.com/jsightapi/jsight-schema-core/fs"
 
 	"github.com/jsightapi/jsight-api-core/catalog"
+	"github.com/jsightapi/jsight-api-core/catalog/ser/openapi"
 )
 
 // HCorpus: build one file of /repo/testdata (fully concrete). Used to validate the
@@ -26,6 +29,38 @@ func HCorpus() {
 		vObserve("interaction", k.String())
 		return nil
 	})
+	// the serialisations, byte for byte: natively encoding/json, in the engine its model over
+	// interpreter values (symgo/json.go) driving the real MarshalJSON / MarshalText methods
+	if vParam("json", 1) == 1 {
+		b, err := c.catalog.ToJson()
+		vObserve("json", len(b), vHash(b), err != nil)
+		bi, err := c.catalog.ToJsonIndent()
+		vObserve("json-indent", len(bi), vHash(bi), err != nil)
+		func() {
+			defer func() {
+				if r := recover(); r != nil {
+					vObserve("openapi-panic")
+				}
+			}()
+			oa, oerr := openapi.NewOpenAPI(c.catalog)
+			if oerr != nil {
+				vObserve("openapi-error", oerr.Error())
+				return
+			}
+			ob, err := json.Marshal(oa)
+			vObserve("openapi", len(ob), vHash(ob), err != nil)
+		}()
+	}
+}
+
+// vHash: FNV-1a of a byte slice (to compare serialisations without observing megabytes).
+func vHash(b []byte) int {
+	h := uint32(2166136261)
+	for _, c := range b {
+		h ^= uint32(c)
+		h *= 16777619
+	}
+	return int(h)
 }
 
 func init() { vRegister("HCorpus", HCorpus) }
